@@ -266,6 +266,10 @@ unsafe impl DynamicBundleClone for &'_ BuiltEntityClone {
 impl From<EntityBuilderClone> for BuiltEntityClone {
     fn from(mut x: EntityBuilderClone) -> Self {
         x.inner.info.sort_unstable_by_key(|y| y.0);
+        // Keep the type-to-slot index in step with the reordered slot list
+        for (index, y) in x.inner.info.iter().enumerate() {
+            x.inner.indices.insert(y.0.id(), index);
+        }
         x.inner.ids.extend(x.inner.info.iter().map(|y| y.0.id()));
         Self(x.inner)
     }
